@@ -182,8 +182,10 @@ class Loud(Thing):
 
 
 def make_pool():
+    # indices 13 and 14 are fetched only by the SECOND connection's peer (the service keeps them alive)
     return [Thing("t0"), Thing("t1"), Falsy("f2"), NoIter("n3"), Hooked("h4"), Loud("l5"), iter([1, 2, 3, 4, 5, 6]),
-            ValueError("held"), KeyboardInterrupt, [1, 2, 3], {"a": 1}, Thing.exposed_m, len]
+            ValueError("held"), KeyboardInterrupt, [1, 2, 3], {"a": 1}, Thing.exposed_m, len,
+            Thing("other13"), Falsy("other14")]
 
 
 def canary_service():
@@ -245,6 +247,7 @@ def canary_service():
 
 
 CANARY_MODULES = ["c07canmod_a", "c07canmod_b"]
+LURE_MODULES = ["sndhdr", "colorsys", "chunk", "tabnanny"]      # importable standard modules nothing here imports
 _FINDER = None
 
 
@@ -299,7 +302,7 @@ def frame(payload):
 
 
 class Session:
-    def __init__(self, config=None, second=True):
+    def __init__(self, config=None, second=True, second_phase="holding"):
         import rpyc  # noqa: F401
         from rpyc.core.channel import Channel
         rt.install()
@@ -318,6 +321,7 @@ class Session:
         self.replies = []         # everything the server wrote, decoded
         self.other_ids = []
         self.second = second
+        self.second_phase = second_phase
         self.ended = False
         self.sent = 0
 
@@ -331,23 +335,31 @@ class Session:
             del lst[:]
         self.modules_before = set(sys.modules)
         if self.second:
-            # a second connection of the same process to the same service: ids boxed only to IT
+            # a second connection of the same process to the same service, whose well-behaved peer fetched by-reference
+            # objects through the real `_box` (the root, two objects the service keeps alive, a fresh one) and - depending
+            # on `second_phase` - still holds them, has released them, or has closed its connection
             p2, s2 = PeerStream(self.net, "A2"), PeerStream(self.net, "B2")
             p2.peer, s2.peer = s2, p2
             self.conn2 = self.svc._connect(self.Channel(s2, True), {})
             from rpyc.core import brine
-            for k, msg in enumerate([(1, 0, (3, (1, ()))), ]):
-                p2.write(frame(brine.dump(msg)))
-            while s2.inbox:
-                self.conn2.serve(0)
-            root2 = self._drain(p2)[0][2][1]
-            for k in range(3):
-                p2.write(frame(brine.dump((1, 10 + k, (8, (2, ((3, root2), (1, "fresh"), (1, ()))))))))
-            while s2.inbox:
-                self.conn2.serve(0)
-            for m in self._drain(p2):
+
+            def ask2(msgs):
+                for m in msgs:
+                    p2.write(frame(brine.dump(m)))
+                while s2.inbox:
+                    self.conn2.serve(0)
+                return self._drain(p2)
+            root2 = ask2([(1, 0, (3, (1, ())))])[0][2][1]
+            self.other_ids.append(root2)
+            reqs = [(1, 10, (8, (2, ((3, root2), (1, "get"), (1, (13,)))))), (1, 11, (8, (2, ((3, root2), (1, "get"), (1, (14,)))))),
+                    (1, 12, (8, (2, ((3, root2), (1, "fresh"), (1, ())))))]
+            for m in ask2(reqs):
                 if m[0] == 2 and type(m[2]) is tuple and m[2][0] == 4:
                     self.other_ids.append(m[2][1])
+            if self.second_phase == "released":
+                ask2([(1, 20 + k, (15, (2, ((3, idp), (1, 100))))) for k, idp in enumerate(self.other_ids[1:])])
+            elif self.second_phase == "closed":
+                self.conn2.close()
         self.conn = self.svc._connect(self.Channel(self.srv, True), self.config)
         self.rec = rt.Recorder(self.conn, self.svc)
         rt.REC = self.rec
@@ -367,8 +379,9 @@ class Session:
                 pass
         self.rec.keep.clear()
         rpyc.lib.time = self._saved_time
-        for m in set(sys.modules) - self.modules_before:
-            if m in CANARY_MODULES:
+        self.imported_during = sorted(set(sys.modules) - self.modules_before)
+        for m in self.imported_during:
+            if m in CANARY_MODULES or m.split(".")[0] in LURE_MODULES:
                 del sys.modules[m]
         return False
 
@@ -462,6 +475,9 @@ def model_core(line):
 
 
 # ------------------------------------------------------------------------------------------------ generator
+INSPECT_NAMES = ["c07canmod_a.Boom", "c07canmod_b.X.Y", "c07canmod_a", "c07canmod_b.Boom", "sndhdr.X", "colorsys.X.Y", "chunk.Chunk",
+                 "tabnanny.NannyNag", "os.system", "os.path.join", "json.decoder.JSONDecoder", "handlers_world.Thing", "canary.Foo",
+                 "builtins.eval", "sys.modules", "x", "a.b.c.d", ".", "..x", "os.", ".os"]
 BUILTIN_NAMES = ["builtins.int", "builtins.list", "builtins.function", "builtins.type", "builtins.dict", "builtins.str"]
 FOREIGN_NAMES = ["canary.Foo", "os.system", "builtins.eval", "c07canmod_a.Boom", "x", ""]
 ATTR_NAMES = ["x", "exposed_x", "only", "exposed_only", "m", "exposed_m", "self", "pub", "pub_m", "_priv", "secret", "secret_m",
@@ -815,8 +831,52 @@ class Gen:
             out.append(("v", self.request()))
         return out
 
+    def inspect_burst(self):
+        """a request with an argument boxed as REMOTE_REF of a non-builtin class name - the server asks us (HANDLE_INSPECT) -
+        and OUR well-formed answer to that very request in the same burst, so that `netref.class_factory` runs on the name"""
+        r = self.r
+        nxt = len(self.out_seqs)
+        name = r.choice(INSPECT_NAMES)
+        ref = (4, (name, r.below(50), r.choice([0, 0, 1])))
+        self.seq += 1
+        root = (3, self.held[0]) if self.held else (3, ("?", 0, 0))
+        first = r.choice([(1, self.seq + 100, (1, (2, (ref,)))),
+                          (1, self.seq + 100, (8, (2, (root, (1, "echo"), (2, (ref,)))))),
+                          (1, self.seq + 100, (9, (2, (ref,))))])
+        methods = r.choice([(), (), (("m", "doc"),), (("__len__", None), ("f", "")), (("__call__", "d"),)])
+        out = [("v", first), ("v", (2, nxt, (1, methods)))]
+        if r.chance(1, 3):
+            out.append(("v", (2, nxt + 1, (1, ()))))
+        return out
+
+    def foreign_burst(self):
+        """identifiers that were boxed to ANOTHER connection's peer (who still holds them, released them, or is gone)"""
+        r = self.r
+        out = []
+        for _ in range(r.range(1, 3)):
+            idp = r.choice(self.s.other_ids)
+            self.seq += 1
+            h = r.choice([4, 7, 8, 9, 10, 15, 12, 13])
+            obj = (3, idp)
+            if h == 4:
+                args = (2, (obj, (1, r.choice(["exposed_x", "x", "secret", "__repr__"]))))
+            elif h == 7:
+                args = (2, (obj, (1, ()), (1, ())))
+            elif h == 8:
+                args = (2, (obj, (1, r.choice(["m", "exposed_m", "poke", "secret_call"])), (1, ()), (1, ())))
+            elif h == 15:
+                args = (2, (obj, (1, r.choice([1, 100]))))
+            else:
+                args = (2, (obj,))
+            out.append(("v", (1, self.seq + 100, (h, args))))
+        return out
+
     def hostile_burst(self):
         r = self.r
+        if r.chance(1, 6):
+            return self.inspect_burst()
+        if self.s.other_ids and r.chance(1, 8):
+            return self.foreign_burst()
         if r.chance(1, 7):
             return self.callback_burst()
         n = r.choice([1, 1, 1, 2, 2, 3, 4])
@@ -841,7 +901,8 @@ class Gen:
 def run_session(rng, n_bursts, config=None, cfg_text="default"):
     """one generated session; returns (session object after completion, description of what was sent)"""
     desc = []
-    with Session(config=config) as s:
+    phase = rng.choice(["holding", "holding", "released", "closed"])
+    with Session(config=config, second_phase=phase) as s:
         g = Gen(rng, s)
         plan = [g.setup_burst] if rng.chance(9, 10) else []
         for b in range(n_bursts):
@@ -859,6 +920,7 @@ def run_session(rng, n_bursts, config=None, cfg_text="default"):
             desc.append([(k, repr(m)[:300]) for k, m in msgs])
             got = s.burst(msgs)
             g.learn(got)
+        s.phase = phase
         s.final_impl = s.impl_line()
         s.final_model_line = s.model_line(cfg_text)
         s.gen = g
